@@ -156,21 +156,32 @@ def run(chk: core.Check):
                 docgen.gen_entry(d, rnd, rnd.choice(["k1", "k2", "k3"]),
                                  fields=[(k, rnd.choice(refvals)) for k in rnd.sample(["title", "journal", "month", "x"], rnd.randint(0, 3))])
             docgen.gen_gap(d, rnd)
-        docs.append(d.text)
+        # every fourth document with CRLF line ends (the carriage return is a blank of its own for the scanner)
+        docs.append(d.text.replace("\n", "\r\n") if i % 4 == 3 else d.text)
+    # ... and a sample of the T2 documents in CRLF spelling (their token sequence changes, so they go through the oracle)
+    for line in rnd.sample(lines, min(len(lines), nrand // 5)):
+        docs.append(concretise(core.parse_export(line)["w"], 0).replace("\n", "\r\n"))
     recs, tlcs = splitobs.evaluate(bib, docs, how="parse0", lib=True)
     for r in tlcs:
         chk.add_tlc(r, "Oracle_Splitter (Parsed) T3", count_states=False)
     for r in recs:
-        if r["raised"] or r["diff"]:
-            continue   # scanner-level differences are the subject of C01-C03
+        if r["raised"]:
+            continue   # scanner-level differences are the subject of C01-C03 ...
+        scanner_differs = bool(r["diff"])
         toks = bibtok.alpha(r["text"], [x for s in r["spans"] for x in s])
         try:
             lib = bib.parse_string(r["text"])
         except Exception as ex:  # noqa
             report(chk, "raised", f"{type(ex).__name__}: {ex}", r["text"])
             continue
-        bad = compare_parsed(bib, r["text"], toks, r["out"], r["parsed"], lib)
-        if bad:
+        try:
+            bad = compare_parsed(bib, r["text"], toks, r["out"], r["parsed"], lib)
+        except Exception:  # noqa
+            if scanner_differs:
+                continue
+            raise
+        # ... except where the difference makes a reference go unresolved (or a non-reference resolved): that is C11's own
+        if bad and (not scanner_differs or bad[0] in ("resolved_exactly", "recorded")):
             report(chk, bad[0], bad[1], r["text"])
     chk.traces += len(docs)
     chk.evaluations += len(docs)
